@@ -1,12 +1,12 @@
 SPECIFICATION InitOnly
 CONSTANTS
   Configs <- TheConfigs
-  Ns = {0, 1, 2}
+  Ns = {0, 1, 2, 3}
   NestSets <- NestThorough
   Bounds <- BoundsLive
   Pools = {FALSE, TRUE}
-  Fds = {FALSE}
-  ScriptLen = 2
+  Fds = {TRUE}
+  ScriptLen = 3
   LongScripts = TRUE
   FdStop = TRUE
   SkipAll = FALSE
